@@ -409,3 +409,19 @@ prop("C05", level="fault_enumeration",
      min_nontrivial=dict(quick=300, thorough=4000),
      min_counters=dict(injected_faults_hit=dict(quick=80, thorough=1000)),
      assumptions=_fs_assume)
+
+prop("C22", level="fault_enumeration",
+     stages=[
+         dict(pkg="fullstack", test="TestC22", sub="traversal", race=True, vary_gomaxprocs=True, cases=dict(quick=150, thorough=1500), timeout=3600),
+         # storage callbacks: small batches, the case is journalled before it runs (a crash identifies its killer)
+         dict(pkg="fullstack", test="TestC22", sub="storage", race=True, cases=dict(quick=96, thorough=960), batch=dict(quick=6, thorough=12), timeout=1800),
+     ],
+     technique="runtime monitoring: panic injection at the k-th invocation of each user-supplied function (decoder, node reifier, prototype chooser, StorageReadOpener, StorageWriteOpener, block committer) on requestor or responder, in child processes; monitors: process survival, error for the panicking request, panic-callback invocation, differential check of a healthy bystander request; Go race detector",
+     level_text=("For each site x side x block index k a victim request runs with the panic armed while (half of the time concurrently) a healthy bystander request "
+                 "over a disjoint DAG runs between the same two nodes. The process must survive (a dead child is a violation, replay = journal), the victim "
+                 "must receive an error, the configured PanicCallback of the panicking side must be invoked, and the bystander's outcome must equal its reference."),
+     level_note="'Selector' panics are represented by the codec / reifier / chooser sites (all run on the traverser goroutine inside the selector walk).",
+     rule=("One evaluation = one (site, side, k) scenario. Non-trivial = the injected panic actually fired; distinct by (site, side, k, size, overlap); "
+           "distinct_sets.site_x_side = combinations in which a panic fired."),
+     min_nontrivial=dict(quick=60, thorough=600),
+     assumptions=_fs_assume)
